@@ -47,7 +47,7 @@ theorem write_rejected_unchanged (H : Handlers) (srv : Server) (cells : List Byt
   cases hkind : a.kind with
   | handler rk wk cell nr => exact absurd hkind (hk rk wk cell nr)
   | service _ _ => rfl
-  | charDecl _ _ _ _ _ => rfl
+  | charDecl _ _ _ _ _ _ => rfl
   | userDesc _ => simp only []; split <;> rfl
   | descriptor _ => rfl
   | cstring _ _ => simp only []; split <;> rfl
